@@ -1061,6 +1061,8 @@ def lookahead_skips_comments(run, R="MATCH"):
             kinds.add(st["rv"]["variant"])
     run.check(bool(asks) and "Comment" in kinds, R, R + "|lookahead|skips-comments", g.loc(), "the operand lookahead steps over Comment tokens",
               "find_lookahead_char_index scans raw characters without recognising comments: a block comment before or inside an operand changes where the operand ends (`op ;*c*; -1-2` against `op {x}-{y}` gives `no match`)")
+    run.check(bool(asks) and "String" in kinds, R, R + "|lookahead|skips-strings", g.loc(), "the operand lookahead steps over String tokens",
+              "find_lookahead_char_index scans the characters of string literals: a separator inside a string operand ends the operand (`add \"+\" + 1` against `add {x} + {y}` gives `no match`)")
 
 
 def precedence_per_operand(run, R="MATCH"):
